@@ -14,11 +14,7 @@ pub fn uuid_counter() -> uuid::Uuid {
 /// Replaces `str::to_lowercase` (Unicode tables) by byte-wise ASCII lower-casing.
 /// Sound for ASCII input, which is all the lexer can put into a symbol token.
 pub fn ascii_lowercase(s: &str) -> String {
-    let mut out = String::with_capacity(s.len());
-    for b in s.bytes() {
-        out.push(b.to_ascii_lowercase() as char);
-    }
-    out
+    s.to_ascii_lowercase()
 }
 
 /// Replaces `alloc::fmt::format`: formatting is not the subject; the
